@@ -81,14 +81,16 @@ let stat_str s = match s with
 let has_pending s = match s with TNotStarted | TDone _ | TFault -> false | _ -> true
 
 type cs = { mutable n : int; mutable sig0 : bool; mutable sem0 : z; mutable auto : bool;
-            mutable scripts : (int * libcall list) list; mutable w : world option; mutable shown : int }
+            mutable scripts : (int * libcall list) list; mutable results : (int * z) list;
+            mutable w : world option; mutable shown : int }
 
 let get_world c = match c.w with
   | Some w -> w
   | None ->
     let scripts t = (try List.assoc (int_of_nat t) c.scripts with Not_found -> []) in
     let started t = let i = int_of_nat t in i = 0 || (c.auto && i < c.n) in
-    let w = init scripts started c.sig0 c.sem0 in
+    let results t = (try List.assoc (int_of_nat t) c.results with Not_found -> Z.add (z_of_int 100) (z_of_int (int_of_nat t))) in
+    let w = init scripts results started c.sig0 c.sem0 in
     c.w <- Some w; w
 
 let thread_tok w i =
@@ -171,12 +173,16 @@ let model_main file =
        let a = Array.of_list cfg in
        let g i d = if Array.length a > i then a.(i) else d in
        { n = int_of_string (g 0 "2"); sig0 = (g 1 "0" = "1"); sem0 = z_of_dec (g 2 "0"); auto = (g 3 "0" = "1");
-         scripts = []; w = None; shown = 0 })
+         scripts = []; results = []; w = None; shown = 0 })
     (fun c _ toks ->
        (match toks with
         | "t" :: i :: ops ->
           (match c.w with
            | None -> c.scripts <- (int_of_string i, List.map parse_call ops) :: List.remove_assoc (int_of_string i) c.scripts
+           | Some _ -> emit "?script-after-move")
+        | ["r"; i; v] ->
+          (match c.w with
+           | None -> c.results <- (int_of_string i, z_of_dec v) :: List.remove_assoc (int_of_string i) c.results
            | Some _ -> emit "?script-after-move")
         | ["m"; "run"; i] -> apply c ("run " ^ i) (Run (nat_of_int (int_of_string i)))
         | ["m"; "spur"; i] -> apply c ("spur " ^ i) (Spurious (nat_of_int (int_of_string i)))
@@ -201,10 +207,22 @@ let judge_main file =
        (match toks with
         | "e" :: l -> List.iter (fun tok -> evs := parse_ev tok :: !evs) l
         | "dl" :: s :: ns :: ms :: a :: b :: [] ->
-          (* the abstime handed to the OS must be start + timeout, normalised (for timeouts >= 0) *)
-          let (x, y) = spec_deadline (z_of_dec s) (z_of_dec ns) (z_of_dec ms) in
-          if Z.compare (z_of_dec ms) Z0 <> Lt && (dec_of_z x <> a || dec_of_z y <> b)
-          then dlbad := Printf.sprintf "deadline(%s.%s+%sms)=%s.%s,expected=%s.%s" s ns ms a b (dec_of_z x) (dec_of_z y) :: !dlbad
+          (* "return false only after their timeout has expired": the abstime handed to the OS (for timeouts >= 0) must be
+             a valid timespec (0 <= tv_nsec < 10^9: otherwise the primitive answers EINVAL at once and the wait returns
+             false before its timeout) that is NOT EARLIER than start + timeout.  A later deadline is inside the text; that
+             the code computes exactly start + timeout is compared with the model (correspondence), not judged here.
+             -1 -1 = the wait returned without calling its timed primitive: too early unless the timeout is 0 *)
+          let msz = z_of_dec ms and az = z_of_dec a and bz = z_of_dec b in
+          let (x, y) = spec_deadline (z_of_dec s) (z_of_dec ns) msz in
+          let nsq = z_of_dec "1000000000" in
+          let lt p q = Z.compare p q = Lt in
+          let missing = (a = "-1" && b = "-1") in
+          let bad =
+            if lt msz Z0 then false
+            else if missing then Z.compare msz Z0 = Gt
+            else lt bz Z0 || not (lt bz nsq) || lt (Z.add (Z.mul az nsq) bz) (Z.add (Z.mul x nsq) y) in
+          if bad
+          then dlbad := Printf.sprintf "deadline(%s.%s+%sms)=%s.%s,must-be-valid-and-not-before=%s.%s" s ns ms a b (dec_of_z x) (dec_of_z y) :: !dlbad
         | _ -> ());
        (s0, v0, evs, dlbad))
     (fun (s0, v0, evs, dlbad) ->
@@ -246,9 +264,10 @@ let gen_main file =
     let a = Array.of_list cfg in
     let g i d = if Array.length a > i then a.(i) else d in
     let c = { n = int_of_string (g 0 "2"); sig0 = (g 1 "0" = "1"); sem0 = z_of_dec (g 2 "0"); auto = (g 3 "0" = "1");
-              scripts = []; w = None; shown = 0 } in
+              scripts = []; results = []; w = None; shown = 0 } in
     List.iter (fun l -> match tokens l with
         | "t" :: i :: ops -> c.scripts <- (int_of_string i, List.map parse_call ops) :: c.scripts
+        | ["r"; i; v] -> c.results <- (int_of_string i, z_of_dec v) :: c.results
         | _ -> ()) tl;
     c in
   let ids c = List.init c.n (fun i -> i) in
@@ -349,7 +368,7 @@ let gen_main file =
       let line = input_line ic in
       match tokens line with
       | "case" :: _ :: c -> cfg := c; tl := []; pre := []
-      | "t" :: _ -> tl := line :: !tl
+      | "t" :: _ | "r" :: _ -> tl := line :: !tl
       | "m" :: _ -> pre := line :: !pre
       | ["walk"; seed; steps; ps; pt] ->
         walk !cfg (List.rev !tl) (List.rev !pre) (int_of_string seed) (int_of_string steps) (int_of_string ps) (int_of_string pt)
